@@ -95,7 +95,7 @@ def make_replay(task, obl, ev, concrete_src=None):
     w('import py_ballisticcalc')
     w(f'import {module_name(c.relfile)} as M')
     w('from pyvc.rt import *')
-    w('from pyvc.rt import _mk')
+    w('from pyvc.rt import _mk, Struct')
     w('try:\n    from contracts.specfn import *\nexcept ImportError:\n    pass')
     w('ns = dict(vars(M)); ns.update({k: v for k, v in globals().items() if not k.startswith("__")})')
     if concrete_src is not None:
